@@ -618,6 +618,11 @@ def judge_subsample(run, rng):
         run.count("build_error_sub:" + type(e).__name__)
         return
     n = len(data)
+    if kw.get("sample") is not None and kw["sample"] > n:
+        # the mutations removed rows: sample= larger than the frame passed is the
+        # caller's argument error (pandas raises ValueError), not a validation
+        run.count("undecided:sub:sample_larger_than_frame(argument_error)")
+        return
     mk = lambda: B.pandas_schema(spec)
     oe = H.run_validate(mk(), data, **kw)
     ol = H.run_validate(mk(), data, lazy=True, **kw)
